@@ -267,6 +267,9 @@ func cmdCheck(args []string) int {
 	}
 	for _, e := range base {
 		if _, ok := byName[e.Name]; !ok {
+			if *only != "" {
+				continue
+			}
 			if e.Kind == "safe" {
 				continue // the dereference/index no longer exists
 			}
@@ -340,7 +343,11 @@ func cmdCheck(args []string) int {
 		}
 		for _, f := range res.Funcs {
 			fmt.Fprintf(os.Stderr, "  fn %s: blocks=%d instrs=%d passes=%d loops-without-invariant=%d\n", f.Key, f.Blocks, f.Instrs, f.Passes, f.LoopsNoInv)
-			for _, n := range topNotes(f.Notes, 12) {
+			nn := 12
+			if os.Getenv("VERIF_NOTES") != "" {
+				nn = 1000
+			}
+			for _, n := range topNotes(f.Notes, nn) {
 				fmt.Fprintf(os.Stderr, "      note: %s\n", n)
 			}
 		}
